@@ -1,1 +1,43 @@
-// placeholder
+//! C14, float and integer/float arms of the five comparison predicates.
+//! Straight-line harnesses: two literal operands with concrete variants and full-domain
+//! symbolic values; the predicate must succeed exactly when the operands compare that way
+//! numerically (an integer is converted to f64), and must return the substitution unchanged.
+use std::mem::ManuallyDrop;
+use std::rc::Rc;
+use suiron::*;
+
+fn stub_format(_args: std::fmt::Arguments<'_>) -> String { String::new() }
+
+macro_rules! cmp_harness {
+    ($name:ident, $pred:ident, $functor:expr, $lt:ty, $lc:expr, $rt:ty, $rc:expr, $op:tt) => {
+        #[kani::proof]
+        #[kani::stub(alloc::fmt::format, stub_format)]
+        #[kani::unwind(4)]
+        fn $name() {
+            let l: $lt = kani::any();
+            let r: $rt = kani::any();
+            let ss: ManuallyDrop<Rc<SubstitutionSet>> = ManuallyDrop::new(Rc::new(Vec::new()));
+            let bip = BuiltInPredicate::new(String::new(), Some(vec![$lc(l), $rc(r)]));
+            let got = ManuallyDrop::new($pred(bip, &ss));
+            let expected = (l as f64) $op (r as f64);
+            assert!(got.is_some() == expected, "outcome differs from the numeric comparison");
+            if let Some(s) = &*got { assert!(s.len() == 0, "a comparison must not bind anything"); }
+        }
+    };
+}
+
+cmp_harness!(c14_eq_ff, bip_equal, "equal", f64, Unifiable::SFloat, f64, Unifiable::SFloat, ==);
+cmp_harness!(c14_eq_fi, bip_equal, "equal", f64, Unifiable::SFloat, i64, Unifiable::SInteger, ==);
+cmp_harness!(c14_eq_if, bip_equal, "equal", i64, Unifiable::SInteger, f64, Unifiable::SFloat, ==);
+cmp_harness!(c14_lt_ff, bip_less_than, "less_than", f64, Unifiable::SFloat, f64, Unifiable::SFloat, <);
+cmp_harness!(c14_lt_fi, bip_less_than, "less_than", f64, Unifiable::SFloat, i64, Unifiable::SInteger, <);
+cmp_harness!(c14_lt_if, bip_less_than, "less_than", i64, Unifiable::SInteger, f64, Unifiable::SFloat, <);
+cmp_harness!(c14_le_ff, bip_less_than_or_equal, "less_than_or_equal", f64, Unifiable::SFloat, f64, Unifiable::SFloat, <=);
+cmp_harness!(c14_le_fi, bip_less_than_or_equal, "less_than_or_equal", f64, Unifiable::SFloat, i64, Unifiable::SInteger, <=);
+cmp_harness!(c14_le_if, bip_less_than_or_equal, "less_than_or_equal", i64, Unifiable::SInteger, f64, Unifiable::SFloat, <=);
+cmp_harness!(c14_gt_ff, bip_greater_than, "greater_than", f64, Unifiable::SFloat, f64, Unifiable::SFloat, >);
+cmp_harness!(c14_gt_fi, bip_greater_than, "greater_than", f64, Unifiable::SFloat, i64, Unifiable::SInteger, >);
+cmp_harness!(c14_gt_if, bip_greater_than, "greater_than", i64, Unifiable::SInteger, f64, Unifiable::SFloat, >);
+cmp_harness!(c14_ge_ff, bip_greater_than_or_equal, "greater_than_or_equal", f64, Unifiable::SFloat, f64, Unifiable::SFloat, >=);
+cmp_harness!(c14_ge_fi, bip_greater_than_or_equal, "greater_than_or_equal", f64, Unifiable::SFloat, i64, Unifiable::SInteger, >=);
+cmp_harness!(c14_ge_if, bip_greater_than_or_equal, "greater_than_or_equal", i64, Unifiable::SInteger, f64, Unifiable::SFloat, >=);
